@@ -40,3 +40,56 @@ Print Assumptions C20_iso_partitions.
 Theorem C20_dtc_format : forall v, 0 <= v < 256 -> dtc_format_spec v (dtc_format_name v).
 Proof. exact dtc_format_faithful. Qed.
 Print Assumptions C20_dtc_format.
+
+(* ---- the code is the model (regenerated each run): every lookup executed on a symbolic identifier (tools/symtrans.py, Gen/Fn_Names.v):
+   the lookup algorithm of the code - member order, matching rule for constants and ranges, fallback - is the model's ---- *)
+From UDS Require Import Gen.Fn_Names Proofs.Tie_names.
+
+Theorem C20_code_AccessTimingParameter_AccessType : forall v, fn_name_AccessTimingParameter_AccessType v = ret (subfn_get_name (table "AccessTimingParameter" "AccessType") v).
+Proof. exact tie_name_AccessTimingParameter_AccessType. Qed.
+Print Assumptions C20_code_AccessTimingParameter_AccessType.
+Theorem C20_code_Authentication_AuthenticationTask : forall v, fn_name_Authentication_AuthenticationTask v = ret (subfn_get_name (table "Authentication" "AuthenticationTask") v).
+Proof. exact tie_name_Authentication_AuthenticationTask. Qed.
+Print Assumptions C20_code_Authentication_AuthenticationTask.
+Theorem C20_code_CommunicationControl_ControlType : forall v, fn_name_CommunicationControl_ControlType v = ret (subfn_get_name (table "CommunicationControl" "ControlType") v).
+Proof. exact tie_name_CommunicationControl_ControlType. Qed.
+Print Assumptions C20_code_CommunicationControl_ControlType.
+Theorem C20_code_ControlDTCSetting_SettingType : forall v, fn_name_ControlDTCSetting_SettingType v = ret (subfn_get_name (table "ControlDTCSetting" "SettingType") v).
+Proof. exact tie_name_ControlDTCSetting_SettingType. Qed.
+Print Assumptions C20_code_ControlDTCSetting_SettingType.
+Theorem C20_code_DiagnosticSessionControl_Session : forall v, fn_name_DiagnosticSessionControl_Session v = ret (subfn_get_name (table "DiagnosticSessionControl" "Session") v).
+Proof. exact tie_name_DiagnosticSessionControl_Session. Qed.
+Print Assumptions C20_code_DiagnosticSessionControl_Session.
+Theorem C20_code_DynamicallyDefineDataIdentifier_Subfunction : forall v, fn_name_DynamicallyDefineDataIdentifier_Subfunction v = ret (subfn_get_name (table "DynamicallyDefineDataIdentifier" "Subfunction") v).
+Proof. exact tie_name_DynamicallyDefineDataIdentifier_Subfunction. Qed.
+Print Assumptions C20_code_DynamicallyDefineDataIdentifier_Subfunction.
+Theorem C20_code_ECUReset_ResetType : forall v, fn_name_ECUReset_ResetType v = ret (subfn_get_name (table "ECUReset" "ResetType") v).
+Proof. exact tie_name_ECUReset_ResetType. Qed.
+Print Assumptions C20_code_ECUReset_ResetType.
+Theorem C20_code_InputOutputControlByIdentifier_ControlParam : forall v, fn_name_InputOutputControlByIdentifier_ControlParam v = ret (subfn_get_name (table "InputOutputControlByIdentifier" "ControlParam") v).
+Proof. exact tie_name_InputOutputControlByIdentifier_ControlParam. Qed.
+Print Assumptions C20_code_InputOutputControlByIdentifier_ControlParam.
+Theorem C20_code_LinkControl_ControlType : forall v, fn_name_LinkControl_ControlType v = ret (subfn_get_name (table "LinkControl" "ControlType") v).
+Proof. exact tie_name_LinkControl_ControlType. Qed.
+Print Assumptions C20_code_LinkControl_ControlType.
+Theorem C20_code_ReadDTCInformation_Subfunction : forall v, fn_name_ReadDTCInformation_Subfunction v = ret (subfn_get_name (table "ReadDTCInformation" "Subfunction") v).
+Proof. exact tie_name_ReadDTCInformation_Subfunction. Qed.
+Print Assumptions C20_code_ReadDTCInformation_Subfunction.
+Theorem C20_code_RequestFileTransfer_ModeOfOperation : forall v, fn_name_RequestFileTransfer_ModeOfOperation v = ret (subfn_get_name (table "RequestFileTransfer" "ModeOfOperation") v).
+Proof. exact tie_name_RequestFileTransfer_ModeOfOperation. Qed.
+Print Assumptions C20_code_RequestFileTransfer_ModeOfOperation.
+Theorem C20_code_RoutineControl_ControlType : forall v, fn_name_RoutineControl_ControlType v = ret (subfn_get_name (table "RoutineControl" "ControlType") v).
+Proof. exact tie_name_RoutineControl_ControlType. Qed.
+Print Assumptions C20_code_RoutineControl_ControlType.
+Theorem C20_code_nrc : forall v, nrc_named v = true -> fn_name_nrc v = ret (nrc_name v).
+Proof. exact tie_name_nrc. Qed.
+Print Assumptions C20_code_nrc.
+Theorem C20_code_did : forall v, fn_name_did v = did_name_from_id v.
+Proof. exact tie_name_did. Qed.
+Print Assumptions C20_code_did.
+Theorem C20_code_routine : forall v, fn_name_routine v = routine_name_from_id v.
+Proof. exact tie_name_routine. Qed.
+Print Assumptions C20_code_routine.
+Theorem C20_code_dtc_format : forall v, fn_name_dtc_format v = ret (dtc_format_name v).
+Proof. exact tie_name_dtc_format. Qed.
+Print Assumptions C20_code_dtc_format.
